@@ -145,7 +145,7 @@ pub struct Txn { pub open: bool, pub marks_written: bool, pub commits: nat, pub 
                     let ghost nodes0 = *nodes;
 //@ insert after-stmt "if let Err(e) = NodeDeletionEntry::delete_all(nodes, &mut daily_log, conn) {"
                     proof { needed = needed.union(own_marks(nodes0)); }
-//@ insert before-stmt "if let Err(e) = daily_log.write(conn) {"
+//@ insert-each before-stmt "daily_log.write(conn)"
         // [every_mark_of_the_batch_is_written] the marks written with the transaction include the buckets marked by every request of the batch: nothing gathered earlier in the batch is dropped on the way
         assert(needed.subset_of(daily_log.marks()));
 //@ insert after-stmt "conn.execute(\"BEGIN TRANSACTION\", [])"
